@@ -456,8 +456,8 @@ func TestC19(t *testing.T) {
 	h.Assume("slip's reader (ReadOne/ReadString) is the way printed text gets back in; its own round trip is the subject of C03")
 	h.Assume("os/exec starts an independent process; the three workers of a case share nothing but the snapshot files")
 
-	h.RunProp(t, valueProp, h.N(8000, 120000))
-	h.RunProp(t, codeProp, h.N(4000, 60000))
-	h.RunProp(t, defsProp, h.N(1500, 12000))
-	h.RunProp(t, snapProp, h.N(150, 900))
+	h.RunProp(t, valueProp, h.N(8000, 40000))
+	h.RunProp(t, codeProp, h.N(4000, 20000))
+	h.RunProp(t, defsProp, h.N(1500, 5000))
+	h.RunProp(t, snapProp, h.N(150, 300))
 }
